@@ -52,9 +52,10 @@ def ALPHABETS():
 
 def warmup():
     R.warm()
-    from props import _hist
+    from props import _hist, c03
 
     _hist.warm()
+    c03.warmup()  # compiles the integer-typed signatures
 
 
 def prm_settings(tier):
@@ -77,6 +78,13 @@ def gen_cases(tier, seed):
     from props import _hist
 
     keys += _hist.gen_cases_c04(tier)
+    # axis-aligned grains typed with integer literals: the int64-typed call must reproduce the
+    # float64 call (which the frame clauses above cover) bit for bit (seed C04h)
+    from props import c03
+
+    for fab, reg in itertools.product(alph.FABRICS, alph.DISL):
+        for vg in c03.WHOLE_VGS[:6]:
+            keys.append(dict(part="dtype", fab=fab, reg=reg, vg=vg))
     return keys
 
 
@@ -89,6 +97,10 @@ def filtered_texture(ph, fb, D):
 
 
 def run_case(key):
+    if key["part"] == "dtype":
+        from props import c03
+
+        return c03.run_dtype(key)
     if key["part"] == "hist":
         from props import _hist
 
